@@ -136,6 +136,7 @@ class Sim(object):
     self.counters = {}
     self.main = None
     self.on_event = None  # optional callback(kind, args) run under the baton
+    self.prefer = None    # thread to pick at the next forced pre-emption
 
   # ---------------------------------------------------------------- tape use
   def _gap(self):
@@ -235,6 +236,11 @@ class Sim(object):
         if not others:
           return me
         if preempt:
+          pf = self.prefer
+          if pf is not None:
+            self.prefer = None
+            if pf in others:
+              return pf
           return others[self.tape.draw(len(others), 'pre')]
         # sync point: 0 keeps running (so that an all-zero tape is the
         # sequential schedule).
@@ -520,7 +526,10 @@ class Sim(object):
     self.sigint_sites.append((site, line, how))
     self.event('sigint_delivered', site, how)
     handler = signal.getsignal(signal.SIGINT)
-    handler(signal.SIGINT, frame)
+    try:
+      handler(signal.SIGINT, frame)
+    finally:
+      self.event('sigint_handler_done', site)
 
 
 # ---------------------------------------------------------------- primitives
@@ -647,6 +656,35 @@ class SimRLock(object):
     self._count = 0
 
 
+class Gate(object):
+  """A one-shot gate a simulated thread parks on until the harness opens it.
+
+  open() may be called from trigger context (inside the trace function): it
+  only flips scheduler state and never yields.
+  """
+
+  def __init__(self):
+    self.waiters = []
+    self.opened = False
+
+  def wait(self):
+    me = cur()
+    if me is None:
+      return
+    if not self.opened:
+      SIM.block(me, self, None, 'gate')
+
+  def open(self, prefer=True):
+    self.opened = True
+    s = SIM
+    for st in list(self.waiters):
+      s.wake(st)
+      if prefer:
+        s.prefer = st
+    if s is not None:
+      s.countdown = 0
+
+
 _event_serial = [0]
 
 
@@ -715,7 +753,7 @@ def _thread_start(self):
       st.exc_info = sys.exc_info()[:2]
       if not s.shutting_down:
         s.event('thread_died', st.sid, type(st.exc_info[1]).__name__,
-                str(st.exc_info[1])[:120])
+                str(st.exc_info[1])[:120], st.name[:40])
     finally:
       sys.settrace(None)
       s.thread_exit(st)
